@@ -318,6 +318,11 @@ def std_transfer(I, fr, t, c, pth):
     if d.startswith('std::option::Option::<T>::'):
         m = d.rsplit('::', 1)[-1]
         o = fr.operand(args[0]) if args else None
+        for _ in range(4):
+            if isinstance(o, Ref):
+                o = fr._project(fr.store.get(o.root, TOP), o.proj)
+        if o is TOP and args:
+            o = fr.deref_operand(args[0])
         if m in ('map_or',) and len(args) == 3 and isinstance(o, Opt) and o.tag in ('some', 'none'):
             if o.tag == 'none':
                 fr.storev(dest, fr.operand(args[1]))
